@@ -140,13 +140,13 @@ func runC02(c *core.Ctx) {
 		c.EngineError(err.Error())
 		return
 	}
-	c.SetRule(fmt.Sprintf("stateless depth-first exploration of all interleavings with at most b preemptions (iterative context bounding; quick b=%d, thorough b=3 with the bound completed reported per scenario) of 10 closed scenarios on a logged-on real session (two of them with a store reset — ResetOnLogout on the peer's Logout, ResetOnDisconnect — racing the senders) (application sender threads, the session thread running timer/inbound/flush handlers, the connection writer), scheduling points at every Mutex/RWMutex operation, every channel operation on messageOut/messageEvent and every message-store call; distinct = distinct schedules (choice sequences)", bound))
+	c.SetRule(fmt.Sprintf("stateless depth-first exploration of all interleavings with at most b preemptions (iterative context bounding; quick b=%d, thorough b=3 with the bound completed reported per scenario) of 11 closed scenarios on a logged-on real session (two of them with a store reset — ResetOnLogout on the peer's Logout, ResetOnDisconnect — racing the senders) (application sender threads, the session thread running timer/inbound/flush handlers, the connection writer), scheduling points at every Mutex/RWMutex operation, every channel operation on messageOut/messageEvent and every message-store call; distinct = distinct schedules (choice sequences)", bound))
 	c.Assume("cooperative scheduler: sequentially consistent interleavings only (weak-memory effects are outside; a separate free-running -race pass of the same thread bodies is supporting evidence in the thorough tier)",
 		"session.go is instrumented from the current tree at check time: "+note, "failed non-blocking sends are fair yields; waits are blocking; step horizon 4000",
 		"scenarios have at most 3 sender threads and 3 sends in total")
 	out, _, err := c02Run("-list")
 	_ = out
-	scenarios := []string{"S1-two-senders", "S2-senders-and-heartbeat", "S3-resend-during-sends", "S4-testrequest-and-resend", "S5-disconnect-during-send", "S6-three-senders", "S7-resend-no-persist", "S8-resend-trailing-admin", "S9-reset-on-logout", "S10-reset-on-disconnect"}
+	scenarios := []string{"S1-two-senders", "S2-senders-and-heartbeat", "S3-resend-during-sends", "S4-testrequest-and-resend", "S5-disconnect-during-send", "S6-three-senders", "S7-resend-no-persist", "S8-resend-trailing-admin", "S9-reset-on-logout", "S10-reset-on-disconnect", "S11-inbound-traffic-during-sends"}
 	shards := 6 * runtime.NumCPU() // more shards than cores: level-2 subtrees differ a lot in size
 	sem := make(chan struct{}, runtime.NumCPU())
 	type job struct {
@@ -168,7 +168,7 @@ func runC02(c *core.Ctx) {
 	if !quick {
 		fb = 2
 	}
-	jobs = append(jobs, job{"S1-two-senders", fb, true}, job{"S3-resend-during-sends", fb, true}, job{"S10-reset-on-disconnect", fb, true})
+	jobs = append(jobs, job{"S1-two-senders", fb, true}, job{"S3-resend-during-sends", fb, true}, job{"S10-reset-on-disconnect", fb, true}, job{"S11-inbound-traffic-during-sends", fb + 1, true})
 	completed := map[string]int{}
 	for _, j := range jobs {
 		var mu sync.Mutex
